@@ -497,8 +497,8 @@ theorem refAction_status (env : Env) (n : Nat) (st : EState) (x0 : Str) (a raw p
   | zero => simp [refAction_zero]
   | succ n => rw [refAction_succ, refAction_succ]; rfl
 
-theorem evalCall_status (env : Env) (n : Nat) (w : World) (st : EState) (x0 : Str) (act raw sig x) :
-    evalCall env n w { st with status := x0 } act raw sig x = evalCall env n w st act raw sig x := rfl
+theorem evalCall_status (env : Env) (n : Nat) (w : World) (st : EState) (x0 : Str) (act raw sig x uc) :
+    evalCall env n w { st with status := x0 } act raw sig x uc = evalCall env n w st act raw sig x uc := rfl
 
 theorem evalAction_status (env : Env) (n : Nat) (w : World) (st : EState) (x0 : Str) (a raw parent extra uc) :
     evalAction env n w { st with status := x0 } a raw parent extra uc = evalAction env n w st a raw parent extra uc := by
